@@ -221,7 +221,8 @@ pub fn gen(out: &mut Out, thorough: bool) {
                 // change: (position, 0 = other value, 1 = other key)
                 let mut t = String::from("{");
                 for i in 0..len {
-                    let (mut k, mut v) = (format!("6b.{:x}", 0x100 + i), format!("#{:x};", 0x30 + i % 10));
+                    let cp = if 0x100 + i >= 0xd800 { 0x100 + i + 0x800 } else { 0x100 + i };   // skip the surrogate gap
+                    let (mut k, mut v) = (format!("6b.{:x}", cp), format!("#{:x};", 0x30 + i % 10));
                     if let Some((p, what)) = change { if p == i { if what == 0 { v = "n".into(); } else { k.push_str(".78"); } } }
                     t.push_str(&format!("k{};{}", k, v));
                 }
